@@ -697,10 +697,46 @@ def _workbook_readback(tier="quick", seed=0):
         for j in range(npts):
             s.add_data_point(j, None if (i, j) == (0, 1) else j + 1, None if j == 0 else j + 2)
     cases.append(("bubble with missing values", XL_CHART_TYPE.BUBBLE_THREE_D_EFFECT, bb))
+    # every case twice: as written by add_chart (ChartXmlWriter + the data's workbook), and as left by replace_data on an existing
+    # chart of the same kind (the series rewriters + the workbook part replaced in the package)
+    from pptx import Presentation as _Prs
+
+    def via_replace_data(ctype, cd):
+        prs_ = _Prs()
+        sl_ = prs_.slides.add_slide(prs_.slide_layouts[6])
+        first = type(cd)()
+        if isinstance(cd, CategoryChartData):
+            first.categories = ["p", "q"]
+            first.add_series("old", (1, 2))
+            first.add_series("old2", (3, 4))
+        elif isinstance(cd, BubbleChartData):
+            first.add_series("old").add_data_point(1, 2, 3)
+        else:
+            first.add_series("old").add_data_point(1, 2)
+        ch_ = sl_.shapes.add_chart(ctype, 0, 0, 100, 100, first).chart
+        ch_.replace_data(cd)
+        return ch_._chartSpace, ch_.part.chart_workbook.xlsx_part.blob
+
+    both = []
     for label, ctype, cd in cases:
-        xml = ChartXmlWriter(ctype, cd).xml
-        root = etree.fromstring(xml.encode() if isinstance(xml, str) else xml)
-        cells = cells_of(cd.xlsx_blob)
+        both.append((label, ctype, cd, False))
+        if len(cd) <= 60:
+            both.append((label + " (after replace_data)", ctype, cd, True))
+    for label, ctype, cd, replaced in both:
+        if replaced:
+            try:
+                cs_, blob_ = via_replace_data(ctype, cd)
+            except Exception as e:
+                nm = "C08.workbook_readback[%s]" % label
+                obls.append({"name": nm, "base": nm, "kind": "bounded", "status": "refuted", "backend": "native", "time": 0, "path": 0,
+                             "model": {"case": label}, "replay": {"confirmed": True, "witness_class": "workbook-cell-mismatch", "detail": "%s: replace_data raised %r" % (label, e)}})
+                continue
+            root = etree.fromstring(etree.tostring(cs_))
+            cells = cells_of(blob_)
+        else:
+            xml = ChartXmlWriter(ctype, cd).xml
+            root = etree.fromstring(xml.encode() if isinstance(xml, str) else xml)
+            cells = cells_of(cd.xlsx_blob)
         bad = None
         for ref in root.xpath("//c:numRef | //c:strRef | //c:multiLvlStrRef", namespaces=cns):
             f = ref.xpath("c:f/text()", namespaces=cns)[0]
@@ -717,6 +753,10 @@ def _workbook_readback(tier="quick", seed=0):
                 cols = sorted({cc for cc, rr in coords})
                 r1 = min(rr for cc, rr in coords)
                 depth = len(lvls)
+                rows = {rr for cc, rr in coords}
+                if ptcount and int(ptcount[0]) != len(rows):
+                    bad = "%s: %s spans %d rows, the multi-level cache announces ptCount=%s" % (label, f, len(rows), ptcount[0])
+                    break
                 if len(cols) != depth:
                     bad = "%s: %s spans %d columns for %d category levels" % (label, f, len(cols), depth)
                     break
